@@ -709,6 +709,27 @@ def substring_pairs(rng, quick, rev=False):
         pairs.append((x, junk + b"q" * 100 + x + b"tail"))
         pairs.append((x, junk))
         pairs.append((x, (x[:3] + b"Q") * 80 + x[:-1] + b"Q" + x))
+    # near-miss chains: two consecutive near-matches (one byte wrong each) of long needles with and without
+    # borders, so that a prefilter jump lands on a second candidate while Two-Way still remembers a prefix
+    # ("shift" memory of the small-period loop); then possibly a real match
+    longs = [b"zAbcdefghi" + b"QJXKVWQJXKVWYQJXKVWY" + b"zAbcdefghi",          # W M W, border shorter than the period
+             b" zebra_crossing_ahead_mind_the_gap_now ",                         # W + W[..1]
+             b"abcdefghijklmnopqrstuvwxyz0123456789" + b"abcde",                   # border of 5
+             (b"abcdefgh" * 5)[:37], b"ab" * 20 + b"c", b"xy" + b"z" * 40, bytes(range(1, 41))]
+    for xx in longs:
+        n = len(xx)
+        ps = sorted(set([0, 1, 2, 3, n // 3, n // 2, n - 12, n - 11, n - 10, n - 9, n - 2, n - 1]))
+        ps = [q for q in ps if 0 <= q < n]
+        combos = [(p1, p2) for p1 in ps for p2 in ps]
+        if quick:
+            combos = combos[::3]
+        for (p1, p2) in combos:
+            a1 = bytearray(xx); a1[p1] = 0x23
+            a2 = bytearray(xx); a2[p2] = 0x23
+            pairs.append((xx, b"-----" + bytes(a1) + bytes(a2) + b"-" * 40))
+            if (p1 + p2) % 4 == 0:
+                pairs.append((xx, b"--" + bytes(a1) + bytes(a2) + xx + b"-" * 20))
+                pairs.append((xx, bytes(a1) + b"-" * 7 + bytes(a2) + bytes(a1) + b"-" * 33))
     if not quick:
         for _ in range(400):
             n = rng.choice([rng.randrange(1, 8), rng.randrange(2, 40), rng.randrange(33, 120)])
@@ -984,6 +1005,8 @@ def gen_c08(tier, rng):
         fam.append((x, b"q" * 70 + x + b"q" * 3 + x))
     pairs = substring_pairs(rng, quick)
     fam += pairs[:: (37 if quick else 5)]
+    # every long-needle pair (Two-Way + prefilter; near-miss chains where a prefilter jump meets the shift memory)
+    fam += [(x, h) for (x, h) in pairs if len(x) > 32]
     k = 0
     for (x, h) in fam:
         k += 1
